@@ -30,6 +30,9 @@ STRICT_FIRST_OF_RUN = False
 # ("outside-property:...:as-modelled" / "...:DIFFERS(recorded only)"); it is judged (impl-vs-model) only with this switch on.
 JUDGE_OUTSIDE_PROPERTY = False
 KNOWN_TOP_BINADE = "C15-top-binade-centres"
+# "attains the maximum up to rounding": a cut passes when its exact criterion is within BUDGET_SLACK times the proved
+# rounding budgets (of that cut and of the best cut) of the exact maximum
+BUDGET_SLACK = 2
 
 
 def fnum(v):
@@ -150,7 +153,7 @@ def build(case):
 class C15(Prop):
     id = "C15"
     anchored = ["src/pewlib/process/threshold.py"]
-    cases = {"quick": 170, "thorough": 2400}
+    cases = {"quick": 125, "thorough": 2400}
     rule = ("arrays of 2..1500 (thorough: ..6000) values in 1-3 dimensions: two values only, sizes 2 and 3, uni-, bi- and "
             "multi-modal normal mixtures, heavy tails (lognormal, Cauchy-like), integer-valued incl. int64 arrays and "
             "values exactly on bin edges (0..256), gapped clusters with empty bins, large offsets, negative values, "
@@ -347,8 +350,8 @@ class C15(Prop):
 
     # shapes with more than 2^21 elements (1-D, 2-D, 3-D; just above 2^21, 3*2^20, 2^22; 1500 x 1500)
     LARGE = [[1500, 1500], [1449, 1449], [2 ** 21 + 1], [2 ** 21 + 2], [2048, 1025], [1774, 1774], [128, 128, 129],
-             [3 * 2 ** 20 + 5], [2, 1100000], [2048, 2048], [2 ** 22 + 1]]
-    LARGER = [[2049, 2049], [2047, 2049], [5 * 2 ** 20 + 3], [6 * 2 ** 20 + 1], [7 * 2 ** 20 + 2], [2896, 2897],
+             [3 * 2 ** 20 + 5], [2, 1100000]]
+    LARGER = [[2048, 2048], [2 ** 22 + 1], [2049, 2049], [2047, 2049], [5 * 2 ** 20 + 3], [6 * 2 ** 20 + 1], [7 * 2 ** 20 + 2], [2896, 2897],
               [2 ** 23], [2 ** 23 + 7], [256, 256, 128], [3000, 2500]]
 
     def gen_large(self, rng, tier):
@@ -723,9 +726,9 @@ class C15(Prop):
         # 1774 x 1774 (> 3 * 2^20), period 3: the maximum at indices = 1 (mod 3), the minimum at indices = 2 (mod 3)
         yield {"kind": "large-periodic", "dtype": "int", "shape": [1774, 1774],
                "tiles": [[[40, 255, 0], 1774 * 1774 // 3], [[40], 1]], "scale_exp": 1}
-        # 2048 x 2048 + 1 elements, period 4 with a NaN at indices = 0 (mod 4): removal requested
-        yield {"kind": "large-periodic", "dtype": "float", "shape": [2 ** 22 + 1],
-               "tiles": [[[None, 0.25, 10.0, 0.5], 2 ** 20], [[9.5], 1]], "scale_exp": -2}
+        # 2 800 001 elements, period 4 with a NaN at indices = 0 (mod 4): removal requested, 2 100 001 numbers remain
+        yield {"kind": "large-periodic", "dtype": "float", "shape": [2800001],
+               "tiles": [[[None, 0.25, 10.0, 0.5], 700000], [[9.5], 1]], "scale_exp": -2}
 
     # ------------------------------------------------------------------ evaluation
     def evaluate(self, case, ctx):
@@ -755,8 +758,6 @@ class C15(Prop):
                 sub = clean[::s_]
                 if float(sub.min()) != lo or float(sub.max()) != hi:
                     feats.add("large:every-%d-th-element-misses-min-or-max" % s_)
-                elif encoded(case) and distinct.size <= LIMIT and np.unique(sub).size < distinct.size:
-                    feats.add("large:every-%d-th-element-misses-a-value" % s_)
         hist = edges = None
         with np.errstate(all="ignore"), warnings.catch_warnings():
             warnings.simplefilter("ignore")
@@ -792,14 +793,25 @@ class C15(Prop):
         t2 = run_otsu(arg)
         impl = {"threshold": t, "threshold_remove_nan": t_rm, "threshold_scaled": t_sc, "threshold_second_call": t2}
         # --- Lean: mechanism (NaN-carrying, rescaled centres) + brute-force specification on NumPy's histogram
-        rep = ctx.driver.call("c15.hist", hist=[int(v) for v in hist], edges=[core.rat(float(v)) for v in edges])
+        rep = ctx.driver.call("c15.hist", hist=[int(v) for v in hist], edges=[core.rat(float(v)) for v in edges],
+                              edge_bits=[str(core.tok(float(v)) & MASK64) for v in edges], slack=[BUDGET_SLACK, 1])
+        flt = rep["float"]
         centres_exact = [unrat(c) for c in rep["centres"]]
         centres = [float(c) for c in centres_exact]
         crit = [unrat(c) for c in rep["spec_crit"]]      # in units of 4^scale_exp
         best = unrat(rep["spec_best"])
         du = abs(float(unrat(rep["spec_best_du"])))       # in units of 2^scale_exp
-        tol = 1e-9 + 2048 * EPS * float(unrat(rep["outer_scaled"])) / du if du > 0 else 1.0
-        near = [j for j, c in enumerate(crit) if c >= best * (1 - Fraction(tol))]
+        # "up to rounding": the cuts whose exact criterion is within the rounding budget of the maximum.  The budget
+        # of a cut is the proved bound on |float criterion - exact criterion| for the code's sequence of binary64
+        # operations (Lean: `float_criterion_within_budget`, evaluated by the driver with u = 2^-53, eta = 2^-1075);
+        # a cut j can win the float argmax only if crit_j + budget_j >= best - budget_best
+        # (`float_argmax_within_budget`).  BUDGET_SLACK (2) allows for implementations that order the same sums and
+        # products differently.  Where the float criterion is not finite (top binade) the old allowance is used.
+        if flt["all_finite"]:
+            near = [int(j) for j in flt["near_budget"]]
+        else:
+            tol = 1e-9 + 2048 * EPS * float(unrat(rep["outer_scaled"])) / du if du > 0 else 1.0
+            near = [j for j, c in enumerate(crit) if c >= best * (1 - Fraction(tol))]
         cls = rep["class_start"]                # first cut of the run of empty bins each cut lies in (Lean: classStart)
         near_classes = sorted({cls[j] for j in near})
         model_t = float(unrat(rep["threshold"]))
@@ -815,6 +827,22 @@ class C15(Prop):
         if centre_sum_overflows:
             feats.add("top-binade:centre-sum-overflows")
         note = json.dumps({"centre_sum_overflows": centre_sum_overflows, "max_abs": big_mag >= 2.0 ** 1023})
+        # (e) power-of-two scaling.  The clause can only be met together with "is a bin centre" when NumPy's edges of the
+        # scaled data are the scaled edges (always, short of over/underflow inside np.histogram): judged then
+        with np.errstate(all="ignore"), warnings.catch_warnings():
+            warnings.simplefilter("ignore")
+            try:
+                hist_s, edges_s = np.histogram(scaled, bins=BINS)
+                edges_scale = (np.array_equal(hist_s, hist)
+                               and np.array_equal(np.asarray(edges_s, dtype=np.float64),
+                                                  np.ldexp(np.asarray(edges, dtype=np.float64), k))
+                               and bool(np.all(np.isfinite(edges_s))))
+            except ValueError:
+                edges_scale = False
+                if isinstance(t_sc, dict) and t_sc.get("raises") == "ValueError":
+                    # NumPy cannot bin the scaled data (256 bins below float resolution): nothing to compare
+                    t_sc = impl["threshold_scaled"] = None
+                    model["threshold_scaled"] = None
         if any(isinstance(v, dict) for v in impl.values()):
             return outcome(impl, model, spec, spec_ok=False, model_ok=False, features=feats | bfeats, note=note)
         # (a) one of the 256 centres
@@ -834,18 +862,6 @@ class C15(Prop):
             separates = (not (float(distinct[0]) > t)) and float(distinct[1]) > t
         elif distinct.size == 3:
             feats.add("three-valued")
-        # (e) power-of-two scaling.  The clause can only be met together with "is a bin centre" when NumPy's edges of the
-        # scaled data are the scaled edges (always, short of over/underflow inside np.histogram): judged then
-        with np.errstate(all="ignore"), warnings.catch_warnings():
-            warnings.simplefilter("ignore")
-            try:
-                hist_s, edges_s = np.histogram(scaled, bins=BINS)
-                edges_scale = (np.array_equal(hist_s, hist)
-                               and np.array_equal(np.asarray(edges_s, dtype=np.float64),
-                                                  np.ldexp(np.asarray(edges, dtype=np.float64), k))
-                               and bool(np.all(np.isfinite(edges_s))))
-            except ValueError:
-                edges_scale = False
         # ... and when the bin centres, before and after scaling, are numbers a double can hold (the midpoint of two
         # subnormal edges may not be one)
 
@@ -907,6 +923,21 @@ class C15(Prop):
         model_ok = (model_ok and rep["unscaled_index"] == rep["index"] and rep["unscaled_threshold"] == rep["threshold"]
                     and rep["scaled_centres_below_one"] and rep["spec_units_agree"])
         model_ok = model_ok and binning_ok
+        # the float criterion: the budget program's exact components are the specification (`critListB_fst`), every
+        # binary64 entry lies within its budget (an instance of `float_criterion_within_budget`), the rescaling was exact
+        if flt["all_finite"]:
+            feats.add("rounding-budget(relative to the maximum):" + (
+                "<1e-12" if float(unrat(flt["budget_rel_best"])) < 1e-12 else
+                "<1e-9" if float(unrat(flt["budget_rel_best"])) < 1e-9 else
+                "<1e-6" if float(unrat(flt["budget_rel_best"])) < 1e-6 else
+                "<1e-3" if float(unrat(flt["budget_rel_best"])) < 1e-3 else ">=1e-3"))
+            model_ok = model_ok and flt["within_budget"] and flt["budget_exact_is_spec"] and flt["scaled_centres_exact"]
+            model["float_model_index"] = flt["index"]
+            # recorded only: does the binary64 model of the code (same operations in the same order) return the same cut
+            same_cut = ki == flt["index"] and (core.tok(t) & MASK64) == int(flt["threshold_bits"])
+            feats.add("binary64-model:" + ("same-cut-same-bits" if same_cut else "other-cut(recorded only)"))
+        else:
+            feats.add("binary64-criterion-not-finite")
         # Which maximiser.  Cuts in one run of empty bins separate the same two groups: their class sums, hence all
         # float inputs of the criterion, are identical (Lean: `empty_run_ties`), the float criterion is the same number
         # at each of them and np.argmax returns the first.  So when every cut within rounding of the maximum lies in ONE
